@@ -344,7 +344,7 @@ pub fn gen_plan(r: &mut Rng, toks: &[String], allow_special: bool, next_probe: &
 }
 
 /// the opening instruction of the construct a `br:d` / `br_if:d` at `b` targets (`None`: the function label)
-fn branch_target(toks: &[String], b: usize) -> Option<usize> {
+pub fn branch_target(toks: &[String], b: usize) -> Option<usize> {
     let mut count: usize = toks[b].split(':').nth(1)?.parse().ok()?;
     let mut skip = 0usize;
     for i in (0..b).rev() {
